@@ -3,6 +3,7 @@
   per-case oracle table of link validities.
 -/
 import PowHsm.Admin.CertGraph
+import PowHsm.Admin.CertLinks
 import PowHsm.Basic.Json
 namespace PowHsm
 namespace Spec.CertOps
@@ -20,6 +21,25 @@ def linkTable (j : Option Json) (c : Option Elem) (e : Elem) : Bool :=
   | some (.obj kvs) =>
     (Json.lookup kvs (e.name ++ "|" ++ (match c with | some p => p.name | none => ""))) == some (.bool true)
   | _ => false
+
+def factsOfJson (j : Json) : Option LinkFacts := do
+  let b (k : String) : Bool := (j.get? k).bind Json.asBool? == some true
+  let i (k : String) : Int := match j.get? k with | some (.int n) => n | _ => 0
+  let kind : ElemKind := match j.get? "kind" with
+    | some (.str "x509") => .x509 | some (.str "attkey") => .attKey | some (.str "quote") => .quote
+    | some (.str "v1") => .v1 | _ => .other
+  pure { kind := kind, certifierIsX509 := b "certifier_is_x509", loads := b "loads", now := i "now",
+         notBefore := i "not_before", notAfter := i "not_after", bound := b "bound",
+         certifierHasKey := b "certifier_has_key", sigOk := b "sig_ok", tweaked := b "tweaked",
+         sigOkTweaked := b "sig_ok_tweaked" }
+
+/-- `facts`: object "<element>|<certifier>" ↦ primitive facts; the link table the walk uses is
+    `Cert.linkValid` of them -/
+def linksOfFacts (j : Option Json) : Option Json :=
+  match j with
+  | some (.obj kvs) => some (.obj (kvs.map fun (k, v) => (k, .bool (match factsOfJson v with
+      | some f => linkValid f | none => false))))
+  | _ => none
 
 /-- `validate_and_get_values`: target ↦ [true, value, tweak] | [false, failing element] -/
 def validateAll (root : String) (els : List Elem) (targets : List String) (links values : Option Json) : Option Json := do
